@@ -26,6 +26,7 @@ package search
 import (
 	"bytes"
 	"context"
+	"encoding/base64"
 	"encoding/json"
 	"fmt"
 	"os"
@@ -123,8 +124,6 @@ func c19Repo(repo, ver int) *zoekt.Repository {
 	return c19RepoT(uint32(repo+1), strconv.Itoa(repo), strconv.Itoa(repo+1), c19VerStr(ver))
 }
 
-var c19SetupTook time.Duration
-
 var c19Templates = map[int][]byte{} // by number of documents
 
 func c19BuildTemplates() error {
@@ -161,6 +160,42 @@ func c19BuildTemplates() error {
 	}
 	wg.Wait()
 	return firstErr
+}
+
+// c19Embedded holds the two template shards as index.NewShardBuilder of the
+// pinned tree wrote them when this harness was authored (VERIF_C19_DUMP). The
+// quick tier starts from these if they pass c19SelfTest on the tree under
+// test (they are ordinary format-16 shards, as a deployment would still have
+// them on disk after a binary upgrade); otherwise, and always with
+// VERIF_C19_TEMPLATES=fresh (thorough tier), the templates are built anew.
+var c19Embedded = map[int]string{
+	2: "enp2ZXJpZiByZXBvPVEgdmVyPVdYWVogZG9jPTAgb2Y9MgpmaWxsZXIgbGluZSAwIG9mIGRvY3VtZW50IDAgaW4gYSBzaGFyZCBvZiAyCnp6dmVyaWYgcmVwbz1RIHZlcj1XWFlaIGRvYz0xIG9mPTIKZmlsbGVyIGxpbmUgMCBvZiBkb2N1bWVudCAxIGluIGEgc2hhcmQgb2YgMgpmaWxsZXIgbGluZSAxIG9mIGRvY3VtZW50IDEgaW4gYSBzaGFyZCBvZiAyCmZpbGxlciBsaW5lIDIgb2YgZG9jdW1lbnQgMSBpbiBhIHNoYXJkIG9mIDIKAAAAAAAAAE8CIiwEIiwsLAAAAP4AAAEBAAAAAAAAAAAAAAAAAAAAAAAAAAEAAAAAAAAAAQAAAAABKgAAASsAACgADMAAaQAAgAAGAAAgAACAAAYgACAAAIAABkAACgAAgAAGQAAgAACAAAwgACAAAIAADIAAbwAAgAANIABuAACAAA2AAGkAAIAADeAAZgAAgAAOQABlAACAAA5gAGgAAIAADsAAZQAAwAAEAABpAADAAAQAAG8AAMQABAAAaQAAxAAEAABvAADIAAFAAGYAAMgABAAAbwAA9AAGAAAgAAD0AAYgACAAAPQABkAACgAA9AAKIAAgAAD0AArgAFgAAUQABAAAdgABXAALAABZAAFgAAsgAFoAAWQAC0AAIAABaAAEAABkAAGEAAQAAHMAAYQADkAAZAABjAAHoAAwAAGMAAegADEAAYwADqAAbQABkAAEAABvAAGQAA3gAGMAAZQABAAAMAABlAAEAAAxAAGUAAQAADIAAZQADcAAdAABlAAOAABvAAGUAA5AACAAAZQADkAAPQABlAAOQABpAAGYAAQAADIAAZgABAAAZAABmAAEAAByAAGYAAegADIAAZgADSAAbAABoAAMIAByAAGkAAzAACAAAaQADYAAbAABpAANwAAgAAGkAA3AAGUAAbAADKAAcgABsAANIABuAAGwAA2AAGUAAbQADKAAbgABuAAEAABhAAG4AAygACAAAbgADoAAIAABvAAHoABRAAG8AAxgAD0AAbwADGAAdQABvAAMwAAgAAG8AAzAAD0AAcAADeAAPQAByAAEAABsAAHIAAegAFcAAcgADIAAIAAByAAMoABwAAHIAA0gAGYAAcwADQAAYQAB0AAEAAAwAAHQAAQAADEAAdQADaAAZQAB2AAMoAByAAHoAA7AAGUAAegAD0AAdiJPLCwuDkGLAR4OLExPLCzVAUFPLCwXHDMcLCw+TywsKU8sLB0TGSMTGRMZExkHT0NPLCwOTz0cE0+MASwsaz8hTyws1gEbaiBPDE8STw1PE08UTxVPFk9CTywsRk8sLBppNk8sLEhPLCwYHDMcLCwtT6gB1AE5TywsCU8nTywsEE8DT0tPLCwyTywsBk8fTyNPLCxFTywsBU8kTywsP08sLCtPLCwmTywsKk8sLCVPLCw4TywsQE8sLCxPLCw6TywsC08ZTzVPLCwxGTYZExkTGR5PCk8oTywsEU9HTywsCE8ET0RPLCw7igEsLDdPLCwCDUINAU8ATwAAA6wAAAOwAAADswAAA7gAAAO8AAADvgAAA8IAAAPIAAADzAAAA9AAAAPaAAAD3AAAA+AAAAPiAAAD4wAAA+YAAAPqAAAD7AAAA/AAAAPyAAAD8wAAA/QAAAP2AAAD+AAAA/oAAAP8AAAD/gAABAAAAAQCAAAEBAAABAgAAAQMAAAEDQAABA4AAAQSAAAEFgAABBwAAAQeAAAEIAAABCIAAAQmAAAEKAAABCwAAAQuAAAEMAAABDQAAAQ4AAAEOgAABDwAAARAAAAERAAABEYAAARKAAAETgAABFIAAARWAAAEWgAABF4AAARiAAAEZgAABGoAAARuAAAEcAAABHIAAAR2AAAEfgAABIAAAASCAAAEhgAABIgAAASMAAAEjgAABJAAAASUAAAElQAABJkAAASdAAAEoQAABKMDAGRkAk+nAWQwLnR4dGQxLnR4dAAABekAAAXvAAC4AA6AAHgAAMAABcAAdAAAxAAFwAB0AAGQAAYAAC4AAZAABiAALgAB0AAPAAB0AgYBBwAGAwYAAAYtAAAGLwAABjAAAAYxAAAGMgAABjMBAAIGBgIAANpxjpMpRDQSB/KHzH3kKkEAAAAAAQEAeyJJbmRleEZvcm1hdFZlcnNpb24iOjE2LCJJbmRleEZlYXR1cmVWZXJzaW9uIjoxMiwiSW5kZXhNaW5SZWFkZXJWZXJzaW9uIjoxMCwiSW5kZXhUaW1lIjoiMjAyNi0wOS0yMlQwMzowMjoyOC41MjU4NTQ5NDNaIiwiUGxhaW5BU0NJSSI6dHJ1ZSwiTGFuZ3VhZ2VNYXAiOnsiVGV4dCI6MH0sIlpvZWt0VmVyc2lvbiI6IiIsIklEIjoiIn17IlRlbmFudElEIjowLCJJRCI6MCwiTmFtZSI6InJRIiwiVVJMIjoiIiwiTWV0YWRhdGEiOnsiY3YiOiJXWFlaIn0sIlNvdXJjZSI6IiIsIkJyYW5jaGVzIjpbeyJOYW1lIjoiSEVBRCIsIlZlcnNpb24iOiJ2V1hZWiJ9XSwiU3ViUmVwb01hcCI6e30sIkNvbW1pdFVSTFRlbXBsYXRlIjoiIiwiRmlsZVVSTFRlbXBsYXRlIjoiIiwiTGluZUZyYWdtZW50VGVtcGxhdGUiOiIiLCJSYXdDb25maWciOnsicmVwb2lkIjoiUSJ9LCJSYW5rIjowLCJJbmRleE9wdGlvbnMiOiIiLCJIYXNTeW1ib2xzIjpmYWxzZSwiVG9tYnN0b25lIjpmYWxzZSwiTGF0ZXN0Q29tbWl0RGF0ZSI6IjAwMDEtMDEtMDFUMDA6MDA6MDBaIn0AAAAACG1ldGFEYXRhAAAABmwAAAC/DHJlcG9NZXRhRGF0YQAAAAcrAAABWQxmaWxlQ29udGVudHMBAAAAAAAAAPYAAAD2AAAACAlmaWxlTmFtZXMBAAAF6QAAAAwAAAX1AAAACAxmaWxlU2VjdGlvbnMBAAABKgAAAAIAAAEsAAAACA1maWxlRW5kU3ltYm9sAAAAAQ4AAAAMCXN5bWJvbE1hcAIAAAEaAAAAAAAAARoAAAAADXN5bWJvbEtpbmRNYXABAAABGgAAAAAAAAEaAAAAAA5zeW1ib2xNZXRhRGF0YQAAAAEaAAAAAAhuZXdsaW5lcwEAAAD+AAAACAAAAQYAAAAICW5ncmFtVGV4dAAAAAE0AAACeAhwb3N0aW5ncwEAAAOsAAAA+QAABKUAAAE8DW5hbWVOZ3JhbVRleHQAAAAF/QAAADAMbmFtZVBvc3RpbmdzAQAABi0AAAAIAAAGNQAAABgLYnJhbmNoTWFza3MAAAABGgAAABAIc3ViUmVwb3MAAAAGUgAAAAMLcnVuZU9mZnNldHMAAAAF4QAAAAQPbmFtZVJ1bmVPZmZzZXRzAAAABk0AAAACDGZpbGVFbmRSdW5lcwAAAAXlAAAABAxuYW1lRW5kUnVuZXMAAAAGTwAAAAMQY29udGVudENoZWNrc3VtcwAAAAZVAAAAEAlsYW5ndWFnZXMAAAAGZQAAAAQKY2F0ZWdvcmllcwAAAAZpAAAAAg9ydW5lRG9jU2VjdGlvbnMAAAAGawAAAAEFcmVwb3MAAAAAAAAAAAAOcmVwb3NJRHNCaXRtYXAAAAAAAAAAAAAJbmFtZUJsb29tAAAAAAAAAAAADGNvbnRlbnRCbG9vbQAAAAAAAAAAAAVyYW5rcwAAAAAAAAAAAAAACIQAAAKi",
+	3: "enp2ZXJpZiByZXBvPVEgdmVyPVdYWVogZG9jPTAgb2Y9MwpmaWxsZXIgbGluZSAwIG9mIGRvY3VtZW50IDAgaW4gYSBzaGFyZCBvZiAzCnp6dmVyaWYgcmVwbz1RIHZlcj1XWFlaIGRvYz0xIG9mPTMKZmlsbGVyIGxpbmUgMCBvZiBkb2N1bWVudCAxIGluIGEgc2hhcmQgb2YgMwpmaWxsZXIgbGluZSAxIG9mIGRvY3VtZW50IDEgaW4gYSBzaGFyZCBvZiAzCmZpbGxlciBsaW5lIDIgb2YgZG9jdW1lbnQgMSBpbiBhIHNoYXJkIG9mIDMKenp2ZXJpZiByZXBvPVEgdmVyPVdYWVogZG9jPTIgb2Y9MwpmaWxsZXIgbGluZSAwIG9mIGRvY3VtZW50IDIgaW4gYSBzaGFyZCBvZiAzCmZpbGxlciBsaW5lIDEgb2YgZG9jdW1lbnQgMiBpbiBhIHNoYXJkIG9mIDMKZmlsbGVyIGxpbmUgMiBvZiBkb2N1bWVudCAyIGluIGEgc2hhcmQgb2YgMwpmaWxsZXIgbGluZSAzIG9mIGRvY3VtZW50IDIgaW4gYSBzaGFyZCBvZiAzCmZpbGxlciBsaW5lIDQgb2YgZG9jdW1lbnQgMiBpbiBhIHNoYXJkIG9mIDMKAAAAAAAAAE8AAAD2AiIsBCIsLCwGIiwsLCwsAAACAQAAAgQAAAIJAAAAAAAAAAAAAAAAAAAAAAAAAAAAAAABAAAAAAAAAAEAAAAAAAAAAQAAAAAAAkQAAAJFAAACRgAAKAAMwABpAACAAAYAACAAAIAABiAAIAAAgAAGQAAgAACAAAZgAAoAAIAABmAAIAAAgAAGgAAgAACAAAwgACAAAIAADIAAbwAAgAANIABuAACAAA2AAGkAAIAADeAAZgAAgAAOQABlAACAAA5gAGgAAIAADsAAZQAAwAAEAABpAADAAAQAAG8AAMQABAAAaQAAxAAEAABvAADIAAQAAGkAAMgABAAAbwAAzAABQABmAADMAAQAAG8AANAABAAAbwAA9AAGAAAgAAD0AAYgACAAAPQABkAAIAAA9AAGYAAKAAD0AAogACAAAPQACuAAWAABRAAEAAB2AAFcAAsAAFkAAWAACyAAWgABZAALQAAgAAFoAAQAAGQAAYQABAAAcwABhAAOQABkAAGMAAegADAAAYwAB6AAMQABjAAHoAAyAAGMAA6gAG0AAZAABAAAbwABkAAN4ABjAAGUAAQAADAAAZQABAAAMQABlAAEAAAyAAGUAAQAADMAAZQABAAANAABlAANwAB0AAGUAA4AAG8AAZQADkAAIAABlAAOQAA9AAGUAA5AAGkAAZgABAAAMwABmAAEAABkAAGYAAQAAHIAAZgAB6AAMwABmAANIABsAAGgAAwgAHIAAaQADMAAIAABpAANgABsAAGkAA3AACAAAaQADcAAZQABsAAMoAByAAGwAA0gAG4AAbAADYAAZQABtAAMoABuAAG4AAQAAGEAAbgADKAAIAABuAAOgAAgAAG8AAegAFEAAbwADGAAPQABvAAMYAB1AAG8AAzAACAAAbwADMAAPQABwAAN4AA9AAHIAAQAAGwAAcgAB6AAVwAByAAMgAAgAAHIAAygAHAAAcgADSAAZgABzAANAABhAAHQAAQAADAAAdAABAAAMQAB0AAEAAAyAAHUAA2gAGUAAdgADKAAcgAB6AAOwABlAAHoAA9AAHYiTywsTywsLCwuDkGnAYsBHg4sbdUBXSweDiwsTE8sLE8sLCwsqAPUA0FPLCxPLCwsLBccMxwsLDMcLCwsLD5PLCxPLCwsLClPLCxPLCwsLB0TGSMTGRMZExkjExkTGRMZExkTGQdPpwFDTywsTywsLCwOT6cBPRwTT6cBjAEsLGs/pwGzAiwsLCzWATxrIU8sLE8sLCwsqQPVAxtqkQIgT6cBDE+nARJPpwENT6cBE0+nARRPpwEVT6cBFk+nAUJPLCxPLCwsLEZPLCxPLCwsLBppkAI2TywsTywsLCxITywsTywsLCwYHDMcLCwzHCwsLCwtT6cBqAGnAdQBpwGnA9MDOU8sLE8sLCwsCU+nASdPLCxPLCwsLBBPpwEDT6cBS08sLE8sLCwsMk8sLE8sLCwsBk+nAR9PpwEjTywsTywsLCxFTywsTywsLCwFT6cBJE8sLE8sLCwsP08sLE8sLCwsK08sLE8sLCwsJk8sLE8sLCwsKk8sLE8sLCwsJU8sLE8sLCwsOE8sLE8sLCwsQE8sLE8sLCwsLE8sLE8sLCwsOk8sLE8sLCwsC0+nARlPpwE1TywsTywsLCwxGTYZExkTGTYZExkTGRMZExkeT6cBCk+nAShPLCxPLCwsLBFPpwFHTywsTywsLCwIT6cBBE+nAURPLCxPLCwsLDuKASwssQIsLCwsN08sLE8sLCwsAg1CDZoBDQFPpwEAT6cBAAAFGwAABSQAAAUpAAAFLwAABTcAAAVAAAAFQgAABUQAAAVNAAAFWQAABWIAAAVrAAAFgAAABYQAAAWNAAAFkQAABZIAAAWXAAAFmwAABZ8AAAWlAAAFqQAABbIAAAW0AAAFtgAABbcAAAW4AAAFugAABb4AAAXCAAAFxgAABcoAAAXOAAAF0gAABdYAAAXaAAAF4wAABewAAAXtAAAF7gAABfAAAAX5AAAGAgAABg4AAAYSAAAGFgAABhoAAAYcAAAGHgAABicAAAYrAAAGNAAABjgAAAY8AAAGRQAABk4AAAZSAAAGVgAABl8AAAZoAAAGbAAABnUAAAZ+AAAGhwAABpAAAAaZAAAGogAABqsAAAa0AAAGvQAABsYAAAbKAAAGzgAABtcAAAbpAAAG7QAABvEAAAb6AAAG/gAABwcAAAcLAAAHDwAABxgAAAcZAAAHHQAAByMAAAcsAAAHMwAABzcGAGRkZGRkA0+nAf8BZDAudHh0ZDEudHh0ZDIudHh0AAAIrAAACLIAAAi4AAC4AA6AAHgAAMAABcAAdAAAxAAFwAB0AADIAAXAAHQAAZAABgAALgABkAAGIAAuAAGQAAZAAC4AAdAADwAAdAIGBgEHDQAGDAMGBgAACQoAAAkNAAAJDgAACQ8AAAkQAAAJEQAACRIAAAkTAQADBgYGAwAAAMYAPpMpRWVX7oImzCj0jxRldriLwsbzvgAAAAAAAAEBAQB7IkluZGV4Rm9ybWF0VmVyc2lvbiI6MTYsIkluZGV4RmVhdHVyZVZlcnNpb24iOjEyLCJJbmRleE1pblJlYWRlclZlcnNpb24iOjEwLCJJbmRleFRpbWUiOiIyMDI2LTA5LTIyVDAzOjAyOjI1LjQzMDU0OTA2WiIsIlBsYWluQVNDSUkiOnRydWUsIkxhbmd1YWdlTWFwIjp7IlRleHQiOjB9LCJab2VrdFZlcnNpb24iOiIiLCJJRCI6IiJ9eyJUZW5hbnRJRCI6MCwiSUQiOjAsIk5hbWUiOiJyUSIsIlVSTCI6IiIsIk1ldGFkYXRhIjp7ImN2IjoiV1hZWiJ9LCJTb3VyY2UiOiIiLCJCcmFuY2hlcyI6W3siTmFtZSI6IkhFQUQiLCJWZXJzaW9uIjoidldYWVoifV0sIlN1YlJlcG9NYXAiOnt9LCJDb21taXRVUkxUZW1wbGF0ZSI6IiIsIkZpbGVVUkxUZW1wbGF0ZSI6IiIsIkxpbmVGcmFnbWVudFRlbXBsYXRlIjoiIiwiUmF3Q29uZmlnIjp7InJlcG9pZCI6IlEifSwiUmFuayI6MCwiSW5kZXhPcHRpb25zIjoiIiwiSGFzU3ltYm9scyI6ZmFsc2UsIlRvbWJzdG9uZSI6ZmFsc2UsIkxhdGVzdENvbW1pdERhdGUiOiIwMDAxLTAxLTAxVDAwOjAwOjAwWiJ9AAAAAAhtZXRhRGF0YQAAAAliAAAAvgxyZXBvTWV0YURhdGEAAAAKIAAAAVkMZmlsZUNvbnRlbnRzAQAAAAAAAAH1AAAB9QAAAAwJZmlsZU5hbWVzAQAACKwAAAASAAAIvgAAAAwMZmlsZVNlY3Rpb25zAQAAAkQAAAADAAACRwAAAAwNZmlsZUVuZFN5bWJvbAAAAAIcAAAAEAlzeW1ib2xNYXACAAACLAAAAAAAAAIsAAAAAA1zeW1ib2xLaW5kTWFwAQAAAiwAAAAAAAACLAAAAAAOc3ltYm9sTWV0YURhdGEAAAACLAAAAAAIbmV3bGluZXMBAAACAQAAAA8AAAIQAAAADAluZ3JhbVRleHQAAAACUwAAAsgIcG9zdGluZ3MBAAAFGwAAAiAAAAc7AAABZA1uYW1lTmdyYW1UZXh0AAAACMoAAABADG5hbWVQb3N0aW5ncwEAAAkKAAAADAAACRYAAAAgC2JyYW5jaE1hc2tzAAAAAiwAAAAYCHN1YlJlcG9zAAAACTwAAAAEC3J1bmVPZmZzZXRzAAAACJ8AAAAHD25hbWVSdW5lT2Zmc2V0cwAAAAk2AAAAAgxmaWxlRW5kUnVuZXMAAAAIpgAAAAYMbmFtZUVuZFJ1bmVzAAAACTgAAAAEEGNvbnRlbnRDaGVja3N1bXMAAAAJQAAAABgJbGFuZ3VhZ2VzAAAACVgAAAAGCmNhdGVnb3JpZXMAAAAJXgAAAAMPcnVuZURvY1NlY3Rpb25zAAAACWEAAAABBXJlcG9zAAAAAAAAAAAADnJlcG9zSURzQml0bWFwAAAAAAAAAAAACW5hbWVCbG9vbQAAAAAAAAAAAAxjb250ZW50Qmxvb20AAAAAAAAAAAAFcmFua3MAAAAAAAAAAAAAAAt5AAACog==",
+}
+
+func c19Setup(fresh bool) (string, error) {
+	if !fresh && len(c19Embedded) == 2 {
+		ok := true
+		for n, s := range c19Embedded {
+			b, err := base64.StdEncoding.DecodeString(s)
+			if err != nil {
+				ok = false
+				break
+			}
+			c19Templates[n] = b
+		}
+		if ok && c19SelfTest() == nil {
+			return "embedded (built by index.NewShardBuilder at authoring time, self-test passed on this tree)", nil
+		}
+	}
+	c19Templates = map[int][]byte{}
+	if err := c19BuildTemplates(); err != nil {
+		return "", fmt.Errorf("building the template shards: %v", err)
+	}
+	if err := c19SelfTest(); err != nil {
+		return "", fmt.Errorf("self-test: %v", err)
+	}
+	return "built with index.NewShardBuilder in this run", nil
 }
 
 // c19Shard returns the bytes of the shard of (repo, ver).
@@ -289,6 +324,7 @@ type c19Env struct {
 	labels  map[string]int
 	nt      bool
 	pending map[string]bool // files replaced while loaded, not yet rescanned
+	skipped int
 }
 
 var c19Base = time.Unix(1_700_000_000, 0)
@@ -659,6 +695,14 @@ func runC19(rec *kit.Recorder, c c19Case) (err error) {
 		return err
 	}
 	defer e.close()
+	t0 := time.Now()
+	defer func() {
+		k := "wall_ms_deterministic_cases"
+		if c.Stress {
+			k = "wall_ms_stress_cases"
+		}
+		rec.Add(k, int(time.Since(t0).Milliseconds()))
+	}()
 	mode := "mode:deterministic"
 	if c.Stress {
 		mode = "mode:stress"
@@ -671,6 +715,9 @@ func runC19(rec *kit.Recorder, c c19Case) (err error) {
 		ls = append(ls, l)
 		rec.Add("events/"+l, n)
 	}
+	if e.skipped > 0 {
+		rec.Add("ops_not_applicable", e.skipped)
+	}
 	key, _ := json.Marshal(c)
 	rec.Eval(string(key), e.nt, ls...)
 	rec.Sample(c, e.nt)
@@ -682,7 +729,6 @@ func (e *c19Env) deterministic(c *c19Case) error {
 	if err := e.scanAndCheck("initial scan"); err != nil {
 		return err
 	}
-	skipped := 0
 	for i, op := range c.Ops {
 		when := fmt.Sprintf("op %d (%s)", i, op.K)
 		switch op.K {
@@ -720,7 +766,7 @@ func (e *c19Env) deterministic(c *c19Case) error {
 				return err
 			}
 			if !ok {
-				skipped++
+				e.skipped++
 			}
 		}
 	}
@@ -735,7 +781,7 @@ func (e *c19Env) deterministic(c *c19Case) error {
 // ---------------------------------------------------------------------------
 // stress
 
-var c19StuckTimeout = 120 * time.Second
+var c19StuckTimeout = 240 * time.Second
 
 func (e *c19Env) stress(rec *kit.Recorder, c *c19Case) error {
 	if err := e.scanAndCheck("initial scan"); err != nil {
@@ -885,7 +931,7 @@ func (e *c19Env) stress(rec *kit.Recorder, c *c19Case) error {
 					return err
 				}
 			case "gc":
-				if err := waitFor(&gcs, 2, "garbage collection"); err != nil {
+				if err := waitFor(&gcs, 1, "garbage collection"); err != nil {
 					return err
 				}
 			default:
@@ -954,7 +1000,7 @@ func c19RareInt(t *rapid.T, pct int, label string) bool {
 func genC19(rt *rapid.T) c19Case {
 	g := kit.G{T: rt}
 	c := c19Case{Repos: g.Int(1, 3, "repos")}
-	stressPct := 4
+	stressPct := 3
 	if v, err := strconv.Atoi(os.Getenv("VERIF_C19_STRESS_PCT")); err == nil {
 		stressPct = v
 	}
@@ -979,7 +1025,7 @@ func genC19(rt *rapid.T) c19Case {
 	hi := 60
 	if c.Stress {
 		c.Searchers = g.Int(2, 4, "searchers")
-		lo, hi = 40, 120
+		lo, hi = 25, 90
 	}
 	c.Ops = rapid.SliceOfN(op, lo, hi).Draw(rt, "ops")
 	return c
@@ -990,24 +1036,29 @@ func TestVerif_C19(t *testing.T) {
 		t.Fatalf("harness assumes index format 16 / next 17, tree has %d / %d", index.IndexFormatVersion, index.NextIndexFormatVersion)
 	}
 	rec := kit.Open(t, "C19",
-		"rapid-generated histories over a temporary index directory with 1-3 repositories: write a shard file r<i>_v<format>.00000.zoekt (format 16 mostly, 15 / 17 / unreadable 18; create, or replace by rename with a new content version, keeping or dropping the .meta sidecar, 8% with an mtime older than everything before), delete, sidecar update, scan(), search, list, forced GC; the watcher is a hand-built DirectoryWatcher around the real loader and shardedSearcher, scan() is an explicit action (no fsnotify); every document names its repository, content version and position; non-trivial = a shard file that was loaded got replaced and a scan followed; distinct by the JSON of the history; mode:stress cases (about 4%) run the same actions with concurrent searchers, a lister, a scanner loop and forced GC under -race",
+		"rapid-generated histories over a temporary index directory with 1-3 repositories: write a shard file r<i>_v<format>.00000.zoekt (format 16 mostly, 15 / 17 / unreadable 18; create, or replace by rename with a new content version, keeping or dropping the .meta sidecar, 8% with an mtime older than everything before), delete, sidecar update, scan(), search, list, forced GC; the watcher is a hand-built DirectoryWatcher around the real loader and shardedSearcher, scan() is an explicit action (no fsnotify); every document names its repository, content version and position; non-trivial = a shard file that was loaded got replaced and a scan followed; distinct by the JSON of the history; mode:stress cases (about 5%: rapid favours the boundary) run the same actions with concurrent searchers, a lister, a scanner loop and forced GC under -race",
 		"file modification times are set by the harness from a logical clock so that every write changes the mtime the watcher compares (two writes within the file system's timestamp granularity are out of scope); a file written with an older mtime has no sidecar",
 		"newest-format rule as documented in watcher.go scan(): per name prefix before the last '_', the files whose name carries the highest format version not above max(IndexFormatVersion, NextIndexFormatVersion); one shard file per repository",
 		"shards are deleted together with their sidecar; sidecars are never removed on their own",
+		"the shard of (repository, content version) is a copy of one of two shards written by index.NewShardBuilder with fixed-width placeholders (repository digit, 4-digit version) overwritten in content and repository metadata; the construction is validated through index.NewSearcher before any history runs (building every shard afresh costs tens of seconds each under the race detector)",
 		"between scans the state of the last scan is served (nothing else triggers a reload in this setup)",
 		"stress mode asserts per search result only: no crash, each repository from exactly one ever-written version with that version's complete, intact document set (a repository may be absent: scan() drops before it loads); convergence is asserted after the directory stopped changing and one more scan ran",
 	)
 	t0 := time.Now()
-	defer func() { t.Logf("templates+selftest took %v", c19SetupTook) }()
-	if err := c19BuildTemplates(); err != nil {
-		t.Fatalf("building the template shards: %v", err)
+	src, err := c19Setup(os.Getenv("VERIF_C19_TEMPLATES") == "fresh")
+	if err != nil {
+		t.Fatalf("harness setup: %v", err)
 	}
-	if err := c19SelfTest(); err != nil {
-		t.Fatalf("harness self-test: %v", err)
+	if p := os.Getenv("VERIF_C19_DUMP"); p != "" { // authoring aid: print the templates for c19Embedded
+		var sb strings.Builder
+		for _, n := range []int{2, 3} {
+			fmt.Fprintf(&sb, "\t%d: %q,\n", n, base64.StdEncoding.EncodeToString(c19Templates[n]))
+		}
+		os.WriteFile(p, []byte(sb.String()), 0o644)
 	}
 	runtime.GC()
-	c19SetupTook = time.Since(t0)
-	rec.Set("setup_seconds_wall", int(c19SetupTook.Seconds()))
+	rec.Set("template_shards", src)
+	rec.Set("setup_seconds_wall", int(time.Since(t0).Seconds()))
 	rec.EnableJournal()
 	kit.Property(t, rec, genC19, func(c c19Case) error { return runC19(rec, c) })
 }
